@@ -124,6 +124,17 @@ pub fn run<C: Suite>(ctx: &mut Ctx) {
                 each_wire_type!(co, roundtrip, ctx);
                 ctx.class(format!("roundtrip/large-threshold/t={t}"));
             }
+            // maps with more than 127 entries (multi-byte length prefixes): public key package, signing package
+            let nbig: u16 = if slow { 130 } else { 300 };
+            if let Ok(g) = crate::proto::dealer_group::<C>(nbig, 2, None, None, &mut rng) {
+                let mut co = Corpus::<C>::default();
+                co.public_key_package.push(g.pkp.clone());
+                let signers: Vec<_> = g.ids.iter().take(nbig as usize - 1).copied().collect();
+                let (_, comms) = crate::proto::commit_all(&g, &signers, &mut rng);
+                co.signing_package.push(frost_core::SigningPackage::new(comms, b"many signers"));
+                each_wire_type!(co, roundtrip, ctx);
+                ctx.class(format!("roundtrip/large-map/n={nbig}"));
+            }
         });
     }
     // primitive decoders: sweeps; one item per (type) so that shards share the load
